@@ -326,6 +326,21 @@ func C20(tier Tier) int {
 			if u.Frozen != (b0&1 != 0) || builtInFunctions.ESDTUserMetadataFromBytes(uout) != u || !bytes.Equal(uout, []byte{byte(b0) & 1, 0}) {
 				flags.Fail(P, "flags", "esdt-user-roundtrip", fmt.Sprintf("ESDTUserMetadata: bytes %x decode to %+v, re-encode to %x", in, u, uout), "case", fmt.Sprintf("%x", in))
 			}
+			// the encoded bytes belong to the caller: setting every bit in them must not change what
+			// the next encoding (of any of the three types) gives
+			for i := range out {
+				out[i] = 0xff
+			}
+			for i := range gout {
+				gout[i] = 0xff
+			}
+			for i := range uout {
+				uout[i] = 0xff
+			}
+			if !bytes.Equal(cm.ToBytes(), []byte{byte(b0) & 5, byte(b1) & 2}) || !bytes.Equal(g.ToBytes(), []byte{byte(b0) & 1, 0}) || !bytes.Equal(u.ToBytes(), []byte{byte(b0) & 1, 0}) ||
+				!bytes.Equal((&builtInFunctions.ESDTUserMetadata{}).ToBytes(), []byte{0, 0}) || !bytes.Equal((&builtInFunctions.ESDTGlobalMetadata{}).ToBytes(), []byte{0, 0}) {
+				flags.Fail(P, "flags", "encoded-bytes-shared", fmt.Sprintf("after the caller changed the bytes returned for %x in place, a later ToBytes gives other bytes (the encoders hand out something they keep)", in), "case", fmt.Sprintf("shared:%x", in))
+			}
 			flags.Case(fmt.Sprintf("pair:%v/%v/%v", cm, g.Paused, u.Frozen))
 		}
 	}
